@@ -178,11 +178,21 @@ def decode_wavedrom(wd, widths):
     return out, ncyc
 
 
+def make_wires(s):
+    """wires for the rendering tasks; 'sub:c3' and 'sub:d4' live in a child block and share their SHORT names with
+    top-level wires of another width"""
+    ws = {'a1': s.wire('a1', 1), 'b1': s.wire('b1', 1), 'c3': s.wire('c3', 3), 'd4': s.wire('d4', 4)}
+    sub = py4hw.Logic(s, 'sub')
+    ws['sub:c3'] = sub.wire('c3', 1)
+    ws['sub:d4'] = sub.wire('d4', 2)
+    return ws
+
+
 def render_task(p, cfg, rec):
     names, n = cfg['wires'], cfg['n']
     with quiet():
         s = py4hw.HWSystem()
-        ws = {'a1': s.wire('a1', 1), 'b1': s.wire('b1', 1), 'c3': s.wire('c3', 3), 'd4': s.wire('d4', 4)}
+        ws = make_wires(s)
         wl = [ws[x] for x in names]
         wvf = Waveform(s, 'wvf', wl)
         symsim.instrument(s, rec)
@@ -247,7 +257,7 @@ def render_task(p, cfg, rec):
         def replay(values, ret=r.ret):
             with quiet():
                 s2 = py4hw.HWSystem()
-                w2 = {'a1': s2.wire('a1', 1), 'b1': s2.wire('b1', 1), 'c3': s2.wire('c3', 3), 'd4': s2.wire('d4', 4)}
+                w2 = make_wires(s2)
                 wv2 = Waveform(s2, 'wvf', [w2[x] for x in names])
                 sm = s2.getSimulator()
                 if pre is not None:
@@ -264,8 +274,9 @@ def render_task(p, cfg, rec):
                 dec2, nc2 = decode_wavedrom(wd, widths)
             except ValueError as e:
                 return {'error': str(e), 'rendering': wd['signal']}
+            path2key = {w2[x].getFullPath(): x for x in set(names)}
             for nm, lanes in dec2.items():
-                want = [values.get('%s@%d' % (nm.split('[')[-1].rstrip(']'), t), 0) for t in range(n)]
+                want = [values.get('%s@%d' % (path2key.get(nm, nm), t), 0) for t in range(n)]
                 for vals in lanes:
                     if vals != want:
                         return {'signal': nm, 'decoded': vals, 'samples': want, 'rendering': wd['signal']}
@@ -339,7 +350,8 @@ def tasks_for(tier):
             if quick and wname not in ('a,b,q', 'duplicate q,q,a', 'port alias (reg.q port, q wire)') and sname not in ('1x6', '3, clear, 2'):
                 continue
             t.append(('capture watch[%s] schedule[%s]' % (wname, sname), capture_task, {'watch': wname, 'sched': sname}))
-    rl = [(['a1'], 5), (['a1', 'b1'], 3), (['c3'], 3), (['a1', 'c3'], 2), (['a1', 'a1'], 3), (['a1'], 0), (['d4'], 2)]
+    rl = [(['a1'], 5), (['a1', 'b1'], 3), (['c3'], 3), (['a1', 'c3'], 2), (['a1', 'a1'], 3), (['a1'], 0), (['d4'], 2),
+          (['c3', 'sub:c3'], 2), (['sub:c3', 'c3'], 2), (['d4', 'sub:d4'], 1)]
     if not quick:
         rl += [(['a1'], 7), (['c3'], 4), (['d4'], 3), (['a1', 'b1', 'c3'], 2), (['c3', 'c3'], 3), (['d4'], 0), (['a1', 'b1'], 5)]
     for names, n in rl:
